@@ -9,6 +9,8 @@ BINARIES = {
     "h_ds": ("h_ds", DS_SRCS),
     "h_sync": ("h_sync", ["sy_main.c", "sy_mutex.c", "sy_cond.c", "sy_sem.c", "sy_rwlock.c", "sy_barrier.c", "sy_spin.c"] + FB),
     "h_yield": ("h_yield", ["h_yield.c"] + FB),
+    "h_rt": ("h_rt", ["h_rt.c"] + FB),
+    "h_sleep": ("h_sleep", ["h_sleep.c"] + FB),
 }
 
 ASSUME_COMMON = [
@@ -268,7 +270,81 @@ def c10(tier, seed):
                 assumptions=ASSUME_COMMON)
 
 
+ALL_RT_STALLS = ["SWITCH_PRE", "SWITCH_POST", "MAINT_PUBLISH", "SCHEDULED", "WAIT_MPSC_PRE_PUSH", "MPSC_MID", "SIGNAL_WAIT_REGISTERED",
+                 "SLEEP_REGISTERED", "FD_WAIT_REGISTERED", "WAIT_MPMC", "SET_AND_WAIT", "STEAL", "SAVING_SKIP"]
+
+
+def c01(tier, seed):
+    runs = fb_plan(tier, seed, "h_rt", "rt", ALL_RT_STALLS, 6, 40, extra=dict(livelock_prop="C01"), stall_every=9)
+    return dict(runs=runs,
+                rule="a case = one seeded random program: 8..120 worker fibers each running 10..60 random actions from a 15-entry menu (yield, mutex, "
+                "semaphore post/wait, rwlock, cond ticket, multi-channel, bounded/unbounded channel sends to single receivers, create+join, "
+                "create+detach, sleep, socketpair echo, barrier cliques, tryjoin polling, try-locks) on 1..16 kernel threads; every blocking action has "
+                "its releaser (give before take). Oracles (online ghost monitor at every context switch): the fiber switched to is not running "
+                "anywhere (its previous suspension completed), is not destroyed, consumes exactly one pending wake-up; nobody is reclaimed while "
+                "running/queued/unfinished; plus library asserts, ASan on heap stacks/fiber_t, logical quiescence. distinct_nontrivial = distinct "
+                "(program shape, observed early-wake/steal/skip counts) signatures.",
+                min_events={"switches": 100000, "migrations": 100, "steals": 50, "saving_skips": 1, "wakeups_before_switch_completed": 1,
+                            "act_cond_ticket": 10, "act_socketpair_io": 10, "act_sleep": 10, "act_create_join": 10},
+                assumptions=ASSUME_COMMON + ["out-of-contract use is not generated (no handle use after a successful join/detach of a finished fiber)"])
+
+
+def c02_full(tier, seed):
+    d = c02(tier, seed)
+    q = tier == "quick"
+    k = 500
+    # (b) whole runtime: pending-wake-up accounting + quiescence on the mixed programs and a spawn/yield/steal storm
+    for thr in ((1, 3, 8, 16) if q else (1, 2, 3, 4, 8, 12, 16)):
+        for mode in ("monitor", "jitter"):
+            k += 1
+            d["runs"].append(fb("h_rt", "mon", "rt", seed, k, thr, mode=mode, trials=4 if q else 30, livelock_prop="C02", io=0))
+    for sp in ("STEAL", "SCHEDULED", "SAVING_SKIP", "WSD_POP_MID", "WSD_STEAL_PRE_CAS"):
+        k += 1
+        d["runs"].append(fb("h_rt", "mon", "rt", seed, k, 8, mode="stall", stall_point=sp, stall_every=9, stall_us_lo=50, stall_us_hi=800,
+                            trials=3 if q else 20, livelock_prop="C02", io=0))
+    d["min_events"].update({"steals": 50, "rt_programs": 4})
+    return d
+
+
+def c09(tier, seed):
+    q = tier == "quick"
+    runs = []
+    k = 0
+    for thr in ((1, 2, 4, 16) if q else (1, 2, 3, 4, 8, 16)):
+        for mode in ("monitor", "jitter"):
+            k += 1
+            runs.append(fb("h_sleep", "mon", "sleep", seed, k, thr, mode=mode, trials=10 if q else 60, livelock_prop="C09"))
+    for sp in ("SCHEDULED", "SLEEP_REGISTERED", "SWITCH_PRE", "STEAL", "TIMER_TICKS"):
+        for thr in ((4,) if q else (2, 8, 16)):
+            k += 1
+            runs.append(fb("h_sleep", "mon", "sleep", seed, k, thr, mode="stall", stall_point=sp, stall_every=3, stall_us_lo=50, stall_us_hi=1500,
+                           trials=6 if q else 30, livelock_prop="C09"))
+            k += 1
+            runs.append(fb("h_sleep", "asan", "sleep", seed, k, thr, mode="stall", stall_point=sp, stall_every=3, stall_us_lo=50, stall_us_hi=1500,
+                           trials=5 if q else 20, scenario=1, livelock_prop="C09"))
+    for thr in ((2, 8) if q else (1, 4, 16)):
+        k += 1
+        runs.append(fb("h_sleep", "asan", "sleep", seed, k, thr, mode="jitter", trials=6 if q else 30, livelock_prop="C09"))
+        k += 1
+        runs.append(fb("h_sleep", "dbg", "sleep", seed, k, thr, mode="jitter", trials=6 if q else 30, livelock_prop="C09"))
+    if not q:
+        k += 1
+        runs.append(fb("h_sleep", "mon", "sleep", seed, k, 4, mode="monitor", trials=6, scenario=4, sleep_seconds=1, livelock_prop="C09"))
+    return dict(runs=runs,
+                rule="a case = one trial of one scenario: (0) 1..200 sleepers with durations {0,1us,999us,1ms,4.9ms,5ms,7ms,12ms,20ms} through "
+                "fiber_sleep/usleep/nanosleep next to a ticker, (1) a same-deadline cohort whose members exit right after waking (their stacks, "
+                "which hold the sleeper nodes, are reclaimed), (2) every kernel thread CPU-bound for 60-300 ms before usleep(20ms) (stale tick), "
+                "(3) every thread always busy with yielding fibers, (4) long sleeps. Oracles: monotonic elapsed >= requested (sound under load), "
+                "one registration and one sleep wake-up per call (ghost), ticker progress on the same thread, ghost/ASan for the sleeper nodes, "
+                "quiescence/livelock for sleepers never resumed.",
+                min_events={"sleep_calls": 500, "sleep_same_tick_cohort_fibers": 10, "sleep_after_cpu_bound_phase": 1,
+                            "sleep_with_every_thread_busy_yielding": 1, "sleep_then_exit_immediately": 10},
+                assumptions=ASSUME_COMMON + ["CLOCK_MONOTONIC brackets each call, so load can only enlarge the measured span"])
+
+
 CHECKS = {
+    "C01": c01,
+    "C09": c09,
     "C03": c03,
     "C05": c05,
     "C06": c06,
@@ -276,7 +352,7 @@ CHECKS = {
     "C10": c10,
     "C12": c12,
     "C18": c18,
-    "C02": c02,
+    "C02": c02_full,
     "C13": c13,
     "C14": c14,
     "C15": c15,
